@@ -190,7 +190,11 @@ def render_write_frame(spec):
                ('zpt/template.py', 'PageTemplate.render'), ('zpt/template.py', 'PageTemplate.include'),
                ('zpt/template.py', 'PageTextTemplateFile.render'),
                ('zpt/template.py', 'Macros.__getitem__'), ('zpt/template.py', 'Macros.names'),
-               ('tal.py', 'RepeatDict.__call__')]
+               ('tal.py', 'RepeatDict.__call__'),
+               # the message of a render error is a function of the formatter's CURRENT records
+               # (BaseTemplate.render appends the enclosing call sites while the exception
+               # propagates): formatting must not store anything on the formatter
+               ('exc.py', 'ExceptionFormatter.__call__')]
     for rel, q in targets:
         fn = find(parse(rel), q)
         if fn is None:
